@@ -284,6 +284,7 @@ def run_system(case, rec, rng):
     from .. import fields, nets
     sp.nets = {n: nets.Net(fields.TrigField(777 + i, sp.D, 1), sp.eqt, reads=("theta", "phi")) for i, n in enumerate(names)}
     sp.u0 = {n: sp.u0[n][:1] for n in names}
+    sp.obs_slice = {n: None for n in names}
     sp.make_data(3)
     for n in names:
         sp.obs_val[n] = sp.obs_val[n][:, :1]
